@@ -18,9 +18,9 @@ defs = scanner.detect_defs(open(cpath).read())
 exe = os.path.join(wd, "s")
 subprocess.run(["gcc", "-O0", "-g", "-w", "-D_GNU_SOURCE", "-fsanitize=address,undefined"] + ["-D" + x for x in defs] + ["-I", fd, "-o", exe, cpath], check=True)
 files = ";".join(bytes(f).hex() for f in hdr["files"])
-keep = {k: hdr[k] for k in ("rs", "interactive", "array", "linenoopt", "bolneeded", "rejectmode", "strictread", "reentrant", "userwrap") if k in hdr}
+keep = {k: hdr[k] for k in ("rs", "interactive", "array", "linenoopt", "bolneeded", "rejectmode", "strictread", "reentrant", "userwrap", "failalloc", "stdio") if k in hdr}
 line = "\t".join([json.dumps(keep)[1:-1], files, hdr.get("sched", ""), hdr.get("ops", "-,0"), str(hdr["bufsize"]), str(hdr.get("initsc", 0)),
-                  hdr.get("outs", "-,0"), hdr.get("wraps", "-,0")]) + "\n"
+                  hdr.get("outs", "-,0"), hdr.get("wraps", "-,0"), str(hdr.get("failalloc", 0)), hdr.get("readfault", "")]) + "\n"
 jf = os.path.join(wd, "jobs"); open(jf, "w").write(line)
 tr = os.path.join(wd, "trace.ndjson")
 p = subprocess.run([exe, "many", tr, jf, "0"], stdout=subprocess.DEVNULL, stderr=subprocess.PIPE, text=True)
